@@ -97,6 +97,20 @@ KERNELS_CURVE = [
     ("classification/precision_recall_curve", "_compute_for_each_class", "compute_for_each_class"),
     ("classification/precision_recall_curve", "_binary_precision_recall_curve_compute", "binary_precision_recall_curve_compute"),
     ("classification/auroc", "_binary_auroc_compute_jit", "binary_auroc_compute_jit"),
+    ("classification/auprc", "_binary_auprc_compute", "binary_auprc_compute"),
+    ("classification/recall_at_fixed_precision", "_recall_at_precision", "recall_at_precision"),
+    ("classification/recall_at_fixed_precision", "_binary_recall_at_fixed_precision_compute", "binary_recall_at_fixed_precision_compute"),
+]
+# C06: binned curve kernels
+KERNELS_BINNED = [
+    ("classification/binned_precision_recall_curve", "_update", "binned_update"),
+    ("classification/binned_precision_recall_curve", "_binary_binned_precision_recall_curve_update",
+     "binary_binned_precision_recall_curve_update"),
+    ("classification/binned_precision_recall_curve", "_binary_binned_precision_recall_curve_compute",
+     "binary_binned_precision_recall_curve_compute"),
+    ("classification/binned_auroc", "_binary_binned_auroc_compute", "binary_binned_auroc_compute"),
+    ("tensor_utils", "_riemann_integral", "riemann_integral"),
+    ("classification/binned_auprc", "_binary_binned_auprc_compute", "binary_binned_auprc_compute"),
 ]
 # family -> where the source lives, which kernels, where the generated terms go; `partial`: kernels in which a branch
 # on a configuration value that leaves the grammar becomes an `.unsupported "<reason>"` leaf instead of dropping the kernel
@@ -108,6 +122,8 @@ FAMILIES = {
             "partial": set()},
     "C05": {"base": "torcheval/metrics/functional", "kernels": KERNELS_CURVE, "file": "KernelsCurve.lean", "ns": "TE.Gen.Curve",
             "partial": {"binary_auroc_compute_jit"}},
+    "C06": {"base": "torcheval/metrics/functional", "kernels": KERNELS_BINNED, "file": "KernelsBinned.lean", "ns": "TE.Gen.Binned",
+            "partial": set()},
 }
 EXC = {"ValueError": "value", "TypeError": "type", "RuntimeError": "runtime", "IndexError": "index", "AssertionError": "assertion",
        "NotImplementedError": "notImpl"}
@@ -153,6 +169,43 @@ class SV:
 
 def opaque(why):
     return SV(("opaque", why), "O")
+
+
+def tuple_arity(t) -> int:
+    """static length of the (right-nested) tuple a term evaluates to, through its branches (1: not known to be a tuple)"""
+    if t[0] == "pair":
+        return 1 + tuple_arity(t[2])
+    if t[0] in ("ite", "iteT"):
+        ns = {tuple_arity(b) for b in (t[2], t[3]) if b[0] not in ("raise_", "unsupported")}
+        return ns.pop() if len(ns) == 1 else 1
+    if t[0] == "assert":
+        return tuple_arity(t[2])
+    if t[0] == "scripted":
+        return tuple_arity(t[1])
+    return 1
+
+
+def proj_fst(t):
+    """first component of a (right-nested) tuple term: a literal pair is projected syntactically (`a, b = helper(..)` where the
+    inlined helper ends in `return a, b` gives the terms the un-extracted code has)"""
+    if t[0] == "pair":
+        return t[1]
+    if t[0] == "scripted" and t[1][0] == "pair":
+        return ("scripted", t[1][1]) if mentions(t[1][1], ("first", "last")) else t[1][1]
+    return ("fst", t)
+
+
+def proj_snd(t):
+    if t[0] == "pair":
+        return t[2]
+    if t[0] == "scripted" and t[1][0] == "pair":
+        return ("scripted", t[1][2]) if mentions(t[1][2], ("first", "last")) else t[1][2]
+    return ("snd", t)
+
+
+def known_2d(t) -> bool:
+    """is the term known to be a 2-d tensor from its head (the ranks of parameters are not tracked)?"""
+    return isinstance(t, tuple) and t[0] in ("reshape2", "transpose", "flipRows", "cumsumRows")
 
 
 def mentions(t, heads) -> bool:
@@ -278,7 +331,7 @@ class Module:
                     self.alias[a.asname or a.name] = n.module + "." + a.name
             if isinstance(n, ast.Import):
                 for a in n.names:
-                    if a.asname and a.name.startswith("torch."):
+                    if a.asname and (a.name.startswith("torch.") or a.name.startswith("torcheval.")):
                         self.alias[a.asname] = a.name
 
 
@@ -302,8 +355,9 @@ class _Resume(ast.stmt):
 
 
 class Exec:
-    def __init__(self, mod: Module, kernel_names, partial=False):
+    def __init__(self, mod: Module, kernel_names, partial=False, known=None):
         self.mod = mod
+        self.known = known or {}                  # dotted name of a function of ANOTHER module -> its (translated) row
         self.kernel_names = kernel_names          # private helpers of this module that may be inlined
         self.depth = 0
         self.partial = partial
@@ -448,6 +502,13 @@ class Exec:
             raise Unsupported("branch on " + (c.term[1] if c.kind == "O" else c.kind) + " with different outcomes")
         if isinstance(s, ast.Pass):
             return self.block(rest, env)
+        if isinstance(s, ast.For):
+            env = dict(env)
+            name, v = self.collect_loop(s, env)
+            env[name] = v
+            return self.block(rest, env)
+        if isinstance(s, ast.While):
+            raise Unsupported("python-level loop")
         raise Unsupported("statement " + type(s).__name__)
 
     @staticmethod
@@ -474,8 +535,8 @@ class Exec:
                 n, t = len(target.elts), v.term
                 items = []
                 for i in range(n):
-                    items.append(SV(("fst", t) if i < n - 1 else t, "T"))
-                    t = ("snd", t)
+                    items.append(SV(proj_fst(t) if i < n - 1 else t, "T"))
+                    t = proj_snd(t)
                 v = SV(("tuple",), "tuple", items)
             if v.kind != "tuple" or len(v.items) != len(target.elts):
                 raise Unsupported("tuple assignment from a non-tuple")
@@ -489,6 +550,20 @@ class Exec:
             items = [self.result_term(x) for x in v.items]
             if len(items) < 2:
                 raise Unsupported("tuple of length < 2 returned")
+            # `a, b, c = helper(..); return a, b, c` is `return helper(..)`: all the projections, in order, of one term that is
+            # statically a tuple of this length
+            root = items[-1]
+            for _ in range(len(items) - 1):
+                root = root[1] if root[0] == "snd" else None
+                if root is None:
+                    break
+            if root is not None and tuple_arity(root) == len(items):
+                t, ok = root, True
+                for i, x in enumerate(items):
+                    ok = ok and x == (("fst", t) if i < len(items) - 1 else t)
+                    t = ("snd", t)
+                if ok:
+                    return root
             t = items[-1]
             for x in reversed(items[:-1]):
                 t = ("pair", x, t)
@@ -573,6 +648,10 @@ class Exec:
             return SV(t, "T" if "T" in (a.kind, b.kind) else a.kind)
         if isinstance(e, ast.List):
             return SV(("list",), "tuple", [self.ev(x, env) for x in e.elts])
+        if isinstance(e, ast.ListComp) and len(e.generators) == 1 and not e.generators[0].ifs and not e.generators[0].is_async:
+            return self.range_loop(e.generators[0].target, e.generators[0].iter, [], e.elt, env)
+        if isinstance(e, (ast.ListComp, ast.GeneratorExp, ast.SetComp, ast.DictComp)):
+            raise Unsupported("python-level loop")                 # a comprehension is the loop it abbreviates
         raise Unsupported("expression " + type(e).__name__)
 
     @staticmethod
@@ -606,7 +685,9 @@ class Exec:
             if e.attr == "device":
                 return opaque("device")
             if e.attr == "T":
-                raise Unsupported("transpose")
+                if not known_2d(base.term):
+                    raise Unsupported("transpose of a tensor that is not known to be 2-d")
+                return SV(("transpose", base.term), base.kind)
         if base.kind == "pseudo" and base.term[0] == "glob":
             return SV(("glob", base.term[1] + "." + e.attr), "pseudo")
         if base.kind == "pseudo" and base.term[0] == "finfo":
@@ -698,11 +779,27 @@ class Exec:
             if i.kind == "P" and i.term == ("int", 0):
                 return SV(("maxDim1", base.term[1]), "T")
             raise Unsupported("index of max(dim=1)")
+        if base.kind == "R" and isinstance(base.items, int) and base.items >= 2:
+            # `curve[1]` of the tuple an inlined / referenced kernel returns = the name `p, r, t = curve` would bind
+            i = self.ev(e.slice, env)
+            n = base.items
+            if i.kind == "P" and i.term[0] == "int" and -n <= i.term[1] < n:
+                k, t = i.term[1] % n, base.term
+                for _ in range(k):
+                    t = proj_snd(t)
+                return SV(proj_fst(t) if k < n - 1 else t, "T")
+            raise Unsupported("tuple index")
         if base.kind == "tuple":
             i = self.ev(e.slice, env)
             if i.kind == "P" and i.term[0] == "int" and -len(base.items) <= i.term[1] < len(base.items):
                 return base.items[i.term[1]]
             raise Unsupported("tuple index")
+        if base.is_tensor() and isinstance(e.slice, ast.Tuple) and len(e.slice.elts) == 2 and isinstance(e.slice.elts[1], ast.Slice) \
+                and e.slice.elts[1].lower is None and e.slice.elts[1].upper is None and e.slice.elts[1].step is None \
+                and not isinstance(e.slice.elts[0], ast.Slice):
+            i = self.ev(e.slice.elts[0], env)
+            if i.kind == "P" and i.term[0] == "var" and i.term[1].startswith("$i"):
+                return SV(("rowDyn", base.term, i.term), base.kind)            # `a[i, :]` with a loop index
         if base.is_tensor() and isinstance(e.slice, ast.Tuple):
             raise Unsupported("multi-dimensional index " + ast.unparse(e.slice))
         if base.is_tensor() and isinstance(e.slice, ast.Slice):
@@ -717,6 +814,8 @@ class Exec:
             i = self.ev(e.slice, env)
             if i.kind in ("B", "U"):
                 return SV(("maskSel", base.term, i.term), base.kind)
+            if i.kind == "P" and i.term[0] == "int" and i.term[1] >= 0 and known_2d(base.term):
+                return SV(("rowAt", base.term, ("lit", i.term[1])), base.kind)
             if i.kind == "P" and i.term in (("int", 0), ("int", -1)):
                 return SV(("first" if i.term[1] == 0 else "last", base.term), base.kind)
             if i.kind == "T":
@@ -781,12 +880,16 @@ class Exec:
                 x = self.ev(e.args[0], env)
                 if x.kind == "pseudo" and x.term[0] in ("shape", "sizeof"):
                     return SV(("ndim", x.term[1]), "P")
-                raise Unsupported("len() of other than a shape")
+                if x.kind in ("T", "B"):
+                    return SV(("shape0", x.term), "P")           # `len(t)` = `t.shape[0]`
+                raise Unsupported("len() of other than a shape or a tensor")
             if f.id == "float" and len(e.args) == 1 and not e.keywords:
                 x = self.ev(e.args[0], env)
                 if x.kind in ("P", "D"):
                     return x                                  # Python numbers are exact rationals here
                 raise Unsupported("float() of a value of kind " + x.kind)
+            if f.id in self.mod.alias and self.mod.alias[f.id] in self.known and f.id not in env:
+                return self.call_kernel(self.known[self.mod.alias[f.id]], e, env)
             if f.id in self.mod.alias:
                 return self.torch_call(self.mod.alias[f.id], e, env)
             if f.id in self.mod.funcs:
@@ -794,6 +897,10 @@ class Exec:
             raise Unsupported("call of " + f.id)
         if isinstance(f, ast.Attribute):
             d = dotted(f)
+            if d and d.split(".")[0] in self.mod.alias and d.split(".")[0] not in env \
+                    and self.mod.alias[d.split(".")[0]] + "." + d.split(".", 1)[1] in self.known:
+                # `import … as prc` / `from … import precision_recall_curve as prc`, then `prc._kernel(..)`
+                return self.call_kernel(self.known[self.mod.alias[d.split(".")[0]] + "." + d.split(".", 1)[1]], e, env)
             if d and d.split(".")[0] == "torch" and "torch" not in env:
                 return self.torch_call(d, e, env)
             if d and d.split(".")[0] in ("logging", "warnings"):
@@ -804,6 +911,68 @@ class Exec:
             recv = self.ev(f.value, env)
             return self.method(recv, f.attr, e, env)
         raise Unsupported("call target")
+
+    # ------------------------------------------------------------------ Python-level loops that collect 0-d tensors
+    def range_loop(self, target, it, stmts, elt, env):
+        """`[elt for i in range(n)]` (after the straight-line assignments `stmts`): one 0-d tensor per index, collected by
+        `torch.tensor(..)`.  The bound index has a canonical name (the source name is immaterial)."""
+        if not (isinstance(target, ast.Name) and isinstance(it, ast.Call) and isinstance(it.func, ast.Name) and it.func.id == "range"
+                and "range" not in env and len(it.args) == 1 and not it.keywords):
+            raise Unsupported("python-level loop")
+        n = self.ev(it.args[0], env)
+        if n.kind != "P":
+            raise Unsupported("python-level loop")
+        self.loop_depth = getattr(self, "loop_depth", 0) + 1
+        try:
+            iname = "$i" + str(self.loop_depth - 1)
+            inner = dict(env)
+            inner[target.id] = SV(("var", iname), "P")
+            for st in stmts:
+                if not (isinstance(st, ast.Assign) and len(st.targets) == 1):
+                    raise Unsupported("python-level loop")
+                self.bind(st.targets[0], self.ev(st.value, inner), inner)
+            v = self.ev(elt, inner)
+            if v.kind != "T":
+                raise Unsupported("python-level loop")
+            return SV(("mapRange", n.term, ("pname", iname), v.term), "LT")
+        finally:
+            self.loop_depth -= 1
+
+    def collect_loop(self, s, env):
+        """`for i in range(n): <assignments>; acc.append(elt)` with `acc = []` before it = `acc = [elt for i in range(n)]`"""
+        last = s.body[-1] if s.body else None
+        if s.orelse or not (isinstance(last, ast.Expr) and isinstance(last.value, ast.Call) and isinstance(last.value.func, ast.Attribute)
+                            and last.value.func.attr == "append" and isinstance(last.value.func.value, ast.Name)
+                            and len(last.value.args) == 1 and not last.value.keywords):
+            raise Unsupported("python-level loop")
+        acc = last.value.func.value.id
+        if not (acc in env and env[acc].kind == "tuple" and env[acc].term == ("list",) and not env[acc].items):
+            raise Unsupported("python-level loop")
+        return acc, self.range_loop(s.target, s.iter, s.body[:-1], last.value.args[0], env)
+
+    def call_kernel(self, row, e, env):
+        """call of a kernel of ANOTHER module that this family's table translates (earlier row): not inlined but referenced —
+        `.callN p₁ a₁ … k_<id>` evaluates the arguments here and the callee's generated term on exactly its parameters"""
+        if row["term"] is None:
+            raise Unsupported("call of " + row["func"] + " (untranslated: " + str(row["reason"]) + ")")
+        if row["partial"]:
+            raise Unsupported("call of " + row["func"] + " (partially translated)")
+        params = row["params"]
+        if not 1 <= len(params) <= 4:
+            raise Unsupported("call of " + row["func"] + " with " + str(len(params)) + " parameters")
+        bound = self.args_of(e, env, params, ignore=set(), required=[])
+        t = ["call" + str(len(params))]
+        for p in params:
+            v = bound[p]
+            if v is None and p in row["defaults"]:
+                v = self.const(row["defaults"][p])
+            if v is None:
+                raise Unsupported("missing argument " + p + " of " + row["func"])
+            if v.kind not in ("T", "B", "P", "D"):
+                raise Unsupported("argument of kind " + v.kind + " passed to " + row["func"])
+            t += [("pname", p), v.term]
+        t.append(("kref", row["id"]))
+        return SV(tuple(t), "R", tuple_arity(row["term"])) if returns_tuple(row["term"]) else SV(tuple(t), "T")
 
     def inline(self, name, e, env, rest=None):
         if not name.startswith("_") or name.endswith("_input_check") or name.endswith("_param_check"):
@@ -828,7 +997,8 @@ class Exec:
         for p in params:
             if bound[p] is None:
                 raise Unsupported("missing argument " + p + " of " + name)
-            if bound[p].kind not in ("T", "B", "P", "D"):
+            if bound[p].kind not in ("T", "B", "P", "D", "O"):
+                # (an opaque value — a device, a dtype — may be handed on: it still must not reach the result)
                 raise Unsupported("argument of kind " + bound[p].kind + " passed to " + name)
         if rest is not None:
             # statement level: the term of the whole continuation (helper body, then the caller's remaining statements)
@@ -853,7 +1023,7 @@ class Exec:
             self.resume = outer_resume
         if kinds == {"P"} and not returns_tuple(t):
             return SV(t, "P")
-        return SV(t, "R" if returns_tuple(t) else "T")
+        return SV(t, "R", tuple_arity(t)) if returns_tuple(t) else SV(t, "T")
 
     def torch_call(self, d, e, env):
         name = d.split(".", 1)[1] if d.startswith("torch.") else d
@@ -892,12 +1062,30 @@ class Exec:
             v = a["data"]
             if v.kind == "P" and v.term[0] not in ("str", "none"):
                 return SV(("tensorOf", v.term), "T")
+            if v.kind == "LT":
+                return SV(v.term, "T")                            # `torch.tensor(<the 0-d tensors a loop collected>)`
             if v.kind == "tuple" and v.term == ("list",) and not v.items:
                 return SV(("emptyVec",), "T")
+            if v.kind == "tuple" and v.term == ("list",) and len(v.items) == 1 and v.items[0].kind == "P" \
+                    and v.items[0].term[0] in ("int", "flt"):
+                return SV(("full", ("int", 1), v.items[0].term), "T")          # `torch.tensor([c])`
             raise Unsupported("torch.tensor of a non-number")
         if name == "numel":
             a = self.args_of(e, env, ["input"])
             return SV(("numel", self.tensor_arg(a["input"]).term), "P")
+        if name == "searchsorted":
+            a = self.args_of(e, env, ["sorted_sequence", "input", "right"], required=["sorted_sequence", "input"])
+            if a["right"] is None or const_of(a["right"]) is not True:
+                raise Unsupported("torch.searchsorted without right=True")
+            return SV(("searchsortedR", self.tensor_arg(a["sorted_sequence"]).term, self.tensor_arg(a["input"]).term), "T")
+        if name == "histc":
+            a = self.args_of(e, env, ["input", "bins", "min", "max"])
+            if a["min"].kind != "P" or a["min"].term not in (("int", 0), ("flt", Fraction(0))) or a["bins"].kind != "P" \
+                    or a["max"].term != a["bins"].term:
+                raise Unsupported("torch.histc other than histc(x, bins=b, min=0, max=b)")
+            return SV(("histcUnit", self.tensor_arg(a["input"]).term, a["bins"].term), "T")
+        if name == "max" and len(e.args) == 1 and not e.keywords:
+            return SV(("maxAll", self.tensor_arg(self.ev(e.args[0], env)).term), "T")
         if name == "square":
             a = self.args_of(e, env, ["input"])
             t = self.tensor_arg(a["input"]).term
@@ -1089,6 +1277,20 @@ class Exec:
                 self.int_const(a["dim"], {0, -1})
             st = ("sortDesc", t)
             return SV(("tuple",), "tuple", [SV(("fst", st), "T"), SV(("snd", st), "T")])
+        if m in ("cumsum", "flip") and known_2d(t):
+            a = self.args_of(e, env, ["dim"] if m == "cumsum" else ["dims"])
+            d = a["dim"] if m == "cumsum" else a["dims"]
+            if d.kind == "tuple" and len(d.items) == 1:
+                d = d.items[0]
+            self.int_const(d, {1, -1})
+            return SV((m + "Rows", t), "T")
+        if m == "reshape":
+            if len(e.args) != 1 or e.keywords:
+                raise Unsupported("reshape other than reshape((r, c))")
+            sh = self.ev(e.args[0], env)
+            if sh.kind != "tuple" or len(sh.items) != 2 or not all(x.kind == "P" for x in sh.items):
+                raise Unsupported("reshape other than reshape((r, c))")
+            return SV(("reshape2", t, sh.items[0].term, sh.items[1].term), recv.kind)
         if m in ("diff", "cumsum", "flip"):
             a = self.args_of(e, env, ["dim"], required=[] if m == "diff" else ["dim"])
             if a["dim"] is not None:
@@ -1148,6 +1350,8 @@ class Exec:
             d = self.int_const(a["dim"], {-1, 0})
             kind = "T" if recv.kind == "D" else recv.kind
             return SV(("unsqueezeLast" if d == -1 else "unsqueeze0", t), kind)
+        if m == "max" and not e.args and not e.keywords:
+            return SV(("maxAll", t), "T")
         if m == "max":
             a = self.args_of(e, env, ["dim"])
             self.int_const(a["dim"], {1})
@@ -1193,6 +1397,7 @@ def lrat(q: Fraction) -> str:
 
 ATOM = {"var": lambda t: f".var {lq(t[1])}", "int": lambda t: f".int {lint(t[1])}", "flt": lambda t: f".flt {lrat(t[1])}",
         "str": lambda t: f".str {lq(t[1])}", "none": lambda t: ".none", "bool": lambda t: f".bool {'true' if t[1] else 'false'}",
+        "pname": lambda t: lq(t[1]), "kref": lambda t: f"k_{t[1]}", "lit": lambda t: lint(t[1]),
         "raise_": lambda t: f".raise_ .{t[1]}", "emptyVec": lambda t: ".emptyVec", "unsupported": lambda t: f".unsupported {lq(t[1])}"}
 
 
@@ -1213,7 +1418,7 @@ def lean_term(t, ind=2) -> str:
     parts = []
     for a in args:
         s = lean_term(a, ind + 2)
-        parts.append(s if a[0] == "none" else "(" + s + ")")
+        parts.append(s if a[0] in ("none", "pname", "kref", "lit") else "(" + s + ")")
     flat = head + " " + " ".join(parts)
     if len(flat) + ind <= 110 and "\n" not in flat:
         return flat
@@ -1292,6 +1497,7 @@ def facts(force=False, family="C04"):
     mods = {}
     rows = []
     names = {}
+    known = {}
     for m, f, _k in fam["kernels"]:
         names.setdefault(m, set()).add(f)
     for m, f, k in fam["kernels"]:
@@ -1320,7 +1526,8 @@ def facts(force=False, family="C04"):
             for a in allargs:
                 ann = ast.unparse(a.annotation) if a.annotation is not None else ""
                 env[a.arg] = SV(("var", a.arg), ann_kind(ann))
-            ex = Exec(mod, names[m] - {f}, partial=k in fam["partial"])
+            ex = Exec(mod, names[m] - {f}, partial=k in fam["partial"],
+                      known={d: r for d, r in known.items() if r["module"] != m})
             term = canon(maybe_scripted(fn, ex.block(list(fn.body), env)), params)
             row["lean"] = lean_term(term, 2)
             row["term"] = term
@@ -1329,6 +1536,7 @@ def facts(force=False, family="C04"):
             row["term"], row["lean"], row["reason"] = None, None, str(u)
         except (OSError, SyntaxError) as u:
             row["reason"] = "source not readable: " + type(u).__name__
+        known[(fam["base"] + "/" + m).replace("/", ".") + "." + f] = row
     _cache[family] = rows
     return rows
 
